@@ -139,9 +139,9 @@ func cmdCheck(args []string) int {
 
 func runCheck(cfg *PropConfig, tier string, seed int) int {
 	t0 := time.Now()
-	timeout := 10
+	timeout := 30
 	if tier == "thorough" {
-		timeout = 60
+		timeout = 90
 	}
 	pats := map[string]bool{}
 	for _, f := range cfg.Functions {
